@@ -26,6 +26,7 @@ RULES = {
     "R-iter": "iterator adapter or for-loop rewritten to the equivalent indexed while loop",
     "R-err": "error-value construction mapped to the env's abstract error constructor (payload formatting dropped)",
     "R-path": "path/generic syntax adapted (turbofish, crate:: prefixes, trait-qualified calls) with no change of callee",
+    "R-map": "`r.map(C)` / `r.map(|v| E)` on a Result desugared to `match r { Ok(v) => Ok(C(v)), Err(e) => Err(e) }` (the definition of Result::map); where the mapped callee is a gc allocation or trait-object call it is named by the env helper carrying its assumed contract",
     "R-slice": "slice/Vec API call mapped to the env helper with the std semantics stated as its contract",
 }
 
